@@ -7,6 +7,6 @@ git -C /repo worktree remove --force $WT 2>/dev/null
 git -C /repo worktree add -q --detach $WT HEAD || exit 1
 ( cd $WT && git apply $P ) || { echo "APPLY FAILED" > $OUT/log; git -C /repo worktree remove --force $WT; exit 1; }
 ( cd $WT && go build ./... ) || { echo "BUILD FAILED" > $OUT/log; git -C /repo worktree remove --force $WT; exit 1; }
-HAPSIM_REPO=$WT HAPSIM_OUT_DIR=$OUT /verif/bin/hapsim check $PROP --runs $RUNS "$@" > $OUT/log 2>&1
+HAPSIM_REPO=$WT HAPSIM_OUT_DIR=$OUT /verif/bin/hapsim check $PROP --runs $RUNS --procs ${HAPSIM_PROCS:-16} "$@" > $OUT/log 2>&1
 echo "exit=$?" >> $OUT/log
 git -C /repo worktree remove --force $WT
